@@ -61,8 +61,9 @@ Lemma list_events_ok : forall c st t, Forall (upd_ok c) (list_events c st t).
 Proof.
   intros c st t. unfold list_events. induction (r_cluster st) as [|[k p] l IH]; simpl; [constructor|].
   apply Forall_app. split; [|exact IH].
-  destruct (covers t k && allowed c k) eqn:E; [|constructor].
-  apply andb_true_iff in E. destruct E as [_ E]. constructor; [exact E | constructor].
+  destruct (covers t k && allowed c k && negb (p_slow p)) eqn:E; [|constructor].
+  apply andb_true_iff in E. destruct E as [E _]. apply andb_true_iff in E. destruct E as [_ E].
+  constructor; [exact E | constructor].
 Qed.
 
 Lemma ext_start_leaf : forall c st t, ext c st (start_leaf c st t).
@@ -104,6 +105,7 @@ Proof.
   intros c st id p. unfold handle_upsert.
   destruct (r_stopped st); [apply ext_refl|].
   destruct (allowed c id) eqn:A; simpl; [|apply ext_refl].
+  destruct (p_slow p); [apply ext_refl|].
   eapply ext_trans; [apply ext_emit1; exact A|].
   destruct (is_ns id); [apply ext_on_ns_upsert|].
   destruct (is_crd id); [apply ext_on_crd_upsert | apply ext_refl].
@@ -343,10 +345,10 @@ Lemma covered_set_cluster : forall st cl id, covered (set_cluster st cl) id = co
 Proof. reflexivity. Qed.
 
 Lemma one_event_upsert : forall c st id p m, (m = MAdd id p \/ m = MUpdate id p) ->
-  (r_stopped st = false -> allowed c id = true -> covered st id = true ->
+  (r_stopped st = false -> allowed c id = true -> covered st id = true -> p_slow p = false ->
      exists extra, r_events (mutate c st m) = r_events st ++ EUpdate id (p_status p) :: extra /\
                    Forall (upd_ok c) extra /\ (plain id -> extra = [])) /\
-  ((r_stopped st = true \/ allowed c id = false \/ covered st id = false) ->
+  ((r_stopped st = true \/ allowed c id = false \/ covered st id = false \/ p_slow p = true) ->
      r_events (mutate c st m) = r_events st).
 Proof.
   intros c st id p m Hm.
@@ -354,7 +356,7 @@ Proof.
      let st1 := set_cluster st (upsert (r_cluster st) id p) in
      if covered st1 id then handle_upsert c st1 id p else st1) by (destruct Hm; subst; reflexivity).
   rewrite Hmut. simpl. rewrite covered_set_cluster. split.
-  - intros S A C. rewrite C. unfold handle_upsert. simpl. rewrite S, A. simpl.
+  - intros S A C W. rewrite C. unfold handle_upsert. simpl. rewrite S, A, W. simpl.
     set (st1 := emit (set_cluster st (upsert (r_cluster st) id p)) [EUpdate id (p_status p)]).
     destruct (is_ns id) eqn:N.
     + destruct (ext_on_ns_upsert c st1 (o_name id)) as [[evs [E F]] _].
@@ -365,11 +367,13 @@ Proof.
         exists evs. rewrite E. subst st1. simpl. rewrite <- app_assoc. simpl. split; [reflexivity|].
         split; [exact F|]. intros [_ X]. congruence.
       * exists []. subst st1. simpl. split; [reflexivity|]. split; [constructor | reflexivity].
-  - intros [S|[A|C]].
+  - intros [S|[A|[C|W]]].
     + destruct (covered st id); [|reflexivity]. unfold handle_upsert. simpl. rewrite S. reflexivity.
     + destruct (covered st id); [|reflexivity]. unfold handle_upsert. simpl. rewrite A.
       destruct (r_stopped st); reflexivity.
     + rewrite C. reflexivity.
+    + destruct (covered st id); [|reflexivity]. unfold handle_upsert. simpl. rewrite W.
+      destruct (r_stopped st); [reflexivity|]. destruct (allowed c id); reflexivity.
 Qed.
 
 Lemma fold_stop_events : forall l s, r_events (fold_left stop_target l s) = r_events s.
@@ -521,7 +525,7 @@ Lemma about_list_events : forall c st t id, cl_ok (r_cluster st) ->
 Proof.
   intros c st t id K k s' H E. unfold list_events in H. apply in_flat_map in H.
   destruct H as [[k0 p0] [Hin H]]. simpl in H.
-  destruct (covers t k0 && allowed c k0); [|destruct H].
+  destruct (covers t k0 && allowed c k0 && negb (p_slow p0)); [|destruct H].
   destruct H as [H|[]]. inversion H; subst. apply oid_eqb_eq in E. subst.
   unfold final_status. rewrite (In_lookup _ _ _ K Hin). reflexivity.
 Qed.
@@ -572,6 +576,7 @@ Proof.
   intros c id st k p Hk. unfold handle_upsert.
   destruct (r_stopped st); [apply keeps_refl|].
   destruct (allowed c k); simpl; [|apply keeps_refl].
+  destruct (p_slow p); [apply keeps_refl|].
   apply (keeps_trans id st (emit st [EUpdate k (p_status p)])).
   - split; [reflexivity|]. intros _. eexists. split; [reflexivity|].
     intros k' s' [H|[]] E. inversion H; subst. symmetry. apply Hk. exact E.
@@ -606,6 +611,7 @@ Lemma cluster_handle_upsert : forall c st k p, r_cluster (handle_upsert c st k p
 Proof.
   intros c st k p. unfold handle_upsert.
   destruct (r_stopped st); [reflexivity|]. destruct (allowed c k); simpl; [|reflexivity].
+  destruct (p_slow p); [reflexivity|].
   destruct (is_ns k); [exact (proj1 (keeps_on_ns_upsert c k _ _))|].
   destruct (is_crd k); [exact (proj1 (keeps_on_crd_upsert c k _ _)) | reflexivity].
 Qed.
@@ -731,10 +737,11 @@ Qed.
 Lemma settled_observed : forall c st m, cl_ok (r_cluster st) ->
   r_stopped st = false -> allowed c (mut_id m) = true -> covered st (mut_id m) = true ->
   (forall id, m = MDelete id -> lookup (r_cluster st) id <> None) ->
+  (forall id p, m = MAdd id p \/ m = MUpdate id p -> p_slow p = false) ->
   settled (mut_id m) (mutate c st m).
 Proof.
-  intros c st m K S A C D. unfold mutate. destruct m as [id p|id p|id]; simpl in *.
-  - rewrite covered_set_cluster, C. unfold handle_upsert. simpl. rewrite S, A. simpl.
+  intros c st m K S A C D W. unfold mutate. destruct m as [id p|id p|id]; simpl in *.
+  - rewrite covered_set_cluster, C. unfold handle_upsert. simpl. rewrite S, A, (W id p (or_introl eq_refl)). simpl.
     set (st1 := emit (set_cluster st (upsert (r_cluster st) id p)) [EUpdate id (p_status p)]).
     assert (J1 : settled id st1).
     { unfold settled, final_status. subst st1. simpl. rewrite last_for_app. simpl.
@@ -742,7 +749,7 @@ Proof.
     assert (K1 : cl_ok (r_cluster st1)) by (subst st1; exact (cl_ok_upsert _ _ _ K)).
     destruct (is_ns id); [apply (settled_keeps id st1 _ K1 J1); apply keeps_on_ns_upsert|].
     destruct (is_crd id); [apply (settled_keeps id st1 _ K1 J1); apply keeps_on_crd_upsert | exact J1].
-  - rewrite covered_set_cluster, C. unfold handle_upsert. simpl. rewrite S, A. simpl.
+  - rewrite covered_set_cluster, C. unfold handle_upsert. simpl. rewrite S, A, (W id p (or_intror eq_refl)). simpl.
     set (st1 := emit (set_cluster st (upsert (r_cluster st) id p)) [EUpdate id (p_status p)]).
     assert (J1 : settled id st1).
     { unfold settled, final_status. subst st1. simpl. rewrite last_for_app. simpl.
@@ -764,11 +771,12 @@ Lemma last_event_final : forall c pre steps1 m steps2,
   let st1 := run c pre steps1 in
   r_stopped st1 = false -> allowed c (mut_id m) = true -> covered st1 (mut_id m) = true ->
   (forall id, m = MDelete id -> lookup (r_cluster st1) id <> None) ->
+  (forall id p, m = MAdd id p \/ m = MUpdate id p -> p_slow p = false) ->
   Forall (not_about (mut_id m)) steps2 ->
   let st := run c pre (steps1 ++ SMut m :: steps2) in
   last_for (mut_id m) (r_events st) = Some (final_status st (mut_id m)).
 Proof.
-  intros c pre steps1 m steps2 st1 S A C D F st. subst st st1. unfold run in *.
+  intros c pre steps1 m steps2 st1 S A C D W F st. subst st st1. unfold run in *.
   rewrite fold_left_app. simpl.
   apply settled_steps; [|exact F|].
   - apply (cl_ok_step c _ (SMut m)). apply (cl_ok_run c pre steps1).
